@@ -639,7 +639,7 @@ theorem stepCore_calm {s : LSt} (op : LOp) (h : Inv s) (hd : s.dead = false) (hi
         | zero => rfl
         | succ k =>
           exfalso
-          have hM := PhM_after_close hA.everOpened hA.noReb
+          have hM := PhM_after_close hA.everOpened hA.noReb hA.active_le_live
           have hqc : QZ (closeCore { s with lockHeld := true, balancing := true } false).1 :=
             ⟨by simp [hq.1], fun t ht hp => hq.2 t (by simpa using ht) hp⟩
           have := absorb_not_calm s.now hM hqc
